@@ -213,9 +213,10 @@ func (sc *c15Scratch) observe(mode string, text string) c15Obs {
 // ---------------------------------------------------------------- live Store
 
 type c15Live struct {
-	t  *testing.T
-	s  *Store
-	cl func()
+	t        *testing.T
+	s        *Store
+	cl       func()
+	restarts int // restarts forced by a node whose settings were changed
 }
 
 func (l *c15Live) start() {
@@ -277,6 +278,7 @@ func (l *c15Live) run(text string) (refused []bool, moved string) {
 				}
 			}
 			moved = ent + ":" + what + "|" + moved
+			l.restarts++
 			l.start()
 			for len(refused) < 3 {
 				refused = append(refused, false)
@@ -644,7 +646,7 @@ func c15Run(w *vWriter, sc *c15Scratch, live *c15Live, in c15Input) {
 		}
 	}
 	var refused []bool
-	if in.Store && live != nil {
+	if in.Store && live != nil && live.restarts < 8 { // a broken guard is reported long before; keep the run short
 		var moved string
 		refused, moved = live.run(text)
 		if moved != "" && fail == "" {
@@ -719,7 +721,7 @@ func TestVerif_C15(t *testing.T) {
 		nt := c.class != "" && c.class != "call-syntax" && c.class != "quoted-name" && c.class != "schema-prefix" && c.class != "inner-comment"
 		c15Run(w, sc, live, c15Input{Text: []byte(c.text), Tags: []string{"corpus"}, Class: c.class, NT: nt, Store: true})
 	}
-	n := vN(1300, 60000)
+	n := vN(1000, 30000)
 	storeEvery := 10
 	if vTier() == "thorough" {
 		storeEvery = 20
